@@ -162,11 +162,10 @@ fn loop_device_cases(rep: &Report, seed: u64, n: usize) {
             let size = ((b.source.len().max(content.len()) + 4096) / 512 + 1) * 512;
             content.resize(size, 0xA5);
             std::fs::write(&img, &content).map_err(|e| e.to_string())?;
-            let out = std::process::Command::new("losetup").args(["-f", "--show"]).arg(&img).output().map_err(|e| e.to_string())?;
-            if !out.status.success() {
+            let Some((sysdev, node)) = scn::attach_loop(&img, &dir) else {
                 return Ok(false);
-            }
-            let dev = String::from_utf8_lossy(&out.stdout).trim().to_string();
+            };
+            let dev = node.display().to_string();
             let result = (|| -> Result<(), String> {
                 // The model must see what the device holds.
                 b.prior = Some(content.clone());
@@ -185,7 +184,8 @@ fn loop_device_cases(rep: &Report, seed: u64, n: usize) {
                 }
                 Ok(())
             })();
-            let _ = std::process::Command::new("losetup").arg("-d").arg(&dev).status();
+            let _ = std::fs::remove_file(&node);
+            scn::detach_loop(&sysdev);
             result.map(|_| true)
         })();
         match r {
